@@ -53,7 +53,7 @@ def required_counters(tier):
         "annot_cases": 50, "tree_later_leaf_failed_after_binding": 30,
         "cause_present_checked": 300,
         "cause_absent_checked": 300,
-        "misuse.calls": 300, "stacked.calls": 50, "foreign_checker.calls": 6,
+        "misuse.calls": 300, "stacked.calls": 50, "foreign_checker.calls": 6, "call_made.while-handling-an-AnnotationError": 200, "call_made.in-finally-while-an-AnnotationError-propagates": 200,
     }
 
 
@@ -245,6 +245,57 @@ def replay_trace(log, specof):
     return s, v, trees
 
 
+MOMENTS = ("plainly", "plainly", "while-handling-an-AnnotationError", "in-finally-while-an-AnnotationError-propagates", "while-handling-an-error-caused-by-an-AnnotationError", "while-handling-a-TypeCheckError")
+
+
+class _Marker(Exception):
+    pass
+
+
+def call_at_moment(moment, thunk):
+    """what the program happens to be doing when it makes the call: nothing, or handling some older, unrelated error
+    (which then sits in the new exception's __context__ chain) - the outcome of the call is the same"""
+    from jaxtyping import AnnotationError, TypeCheckError
+
+    if moment == "plainly":
+        return thunk()
+    if moment == "while-handling-an-AnnotationError":
+        try:
+            raise AnnotationError("an older, unrelated misuse that the program is dealing with")
+        except AnnotationError:
+            return thunk()
+    if moment == "while-handling-a-TypeCheckError":
+        try:
+            raise TypeCheckError("an older, unrelated violation that the program is dealing with")
+        except TypeCheckError:
+            return thunk()
+    if moment == "while-handling-an-error-caused-by-an-AnnotationError":
+        try:
+            try:
+                raise AnnotationError("older misuse")
+            except AnnotationError as e:
+                raise ValueError("wrapped") from e
+        except ValueError:
+            return thunk()
+    if moment == "in-finally-while-an-AnnotationError-propagates":
+        box = []
+        try:
+            try:
+                raise AnnotationError("older misuse, still propagating")
+            finally:
+                try:
+                    box.append(("ok", thunk()))
+                except BaseException as e:  # noqa
+                    box.append(("raise", e))
+        except AnnotationError:
+            pass
+        kind, val = box[0]
+        if kind == "raise":
+            raise val
+        return val
+    raise AssertionError(moment)
+
+
 def run_case(rec, rng, case=None, rngkey=None):
     import beartype
     import typeguard
@@ -279,8 +330,10 @@ def run_case(rec, rng, case=None, rngkey=None):
             config.update("jaxtyping_remove_typechecker_stack", remove_stack)
             attached = checktrace.attach()
             log = checktrace.start() if attached else None
+            moment = rng.choice(MOMENTS)
+            rec.count("call_made." + moment)
             try:
-                fn(*[vals[n] for n in names])
+                call_at_moment(moment, lambda: fn(*[vals[n] for n in names]))
                 got, exc = "ok", None
             except BaseException as e:  # noqa
                 got, exc = "raise", e
